@@ -259,5 +259,22 @@ func Corpus() []CorpusCase {
 		objs = append(objs, p.HTTPRoute("ns", "hr", 3, par, nil, rule))
 		mk("header-value-backslash-dollar", objs)
 	}
+	{
+		// the same route name in different namespaces, every route with a weighted rule 0 (and rule 1): three BackendGroups
+		// per rule index, three split_clients variables (seeded change C15-r4m1: group key without the namespace)
+		objs, par := base("ns", "other", "third")
+		objs = append(objs, p.HTTPRoute("ns", "twin", 3, par, []string{"one.example.com"},
+			p.HTTPRule([]gatewayv1.HTTPRouteMatch{p.PathMatch("PathPrefix", "/")}, two(1, 1)...),
+			p.HTTPRule([]gatewayv1.HTTPRouteMatch{p.PathMatch("PathPrefix", "/b")}, two(2, 1, 1)...)))
+		objs = append(objs, p.HTTPRoute("other", "twin", 4, par, []string{"two.example.com"},
+			p.HTTPRule([]gatewayv1.HTTPRouteMatch{p.PathMatch("PathPrefix", "/")}, two(9, 1)...),
+			p.HTTPRule([]gatewayv1.HTTPRouteMatch{p.PathMatch("PathPrefix", "/b")}, two(1, 3)...)))
+		gr := gatewayv1.GRPCRouteRule{}
+		for _, b := range two(1, 2) {
+			gr.BackendRefs = append(gr.BackendRefs, gatewayv1.GRPCBackendRef{BackendRef: p.BackendRef(b)})
+		}
+		objs = append(objs, p.GRPCRoute("third", "twin", 5, par, []string{"grpc.example.com"}, gr))
+		mk("same-route-name-in-three-namespaces-weighted", objs)
+	}
 	return out
 }
